@@ -152,6 +152,11 @@ impl Peer {
                 body = 1u64.wrapping_add(rng.next() % 1000).to_le_bytes().to_vec();
                 close_after = false;
             }
+            // a failure status whose low 32 bits are zero
+            "nack_hi" => {
+                body = [1u64 << 32, 1 << 63, (-(1i64 << 32)) as u64, 0xdead_beef_0000_0000][(rng.next() % 4) as usize].to_le_bytes().to_vec();
+                close_after = false;
+            }
             "body_invalid" => match code {
                 24 => body[4..8].copy_from_slice(&0u32.to_le_bytes()), // config size 0 with payload
                 31 => {
